@@ -3,8 +3,14 @@
              xls@R:C …                       the same with the base cell (R, C) of a shared formula
                                              (PtgRefN / PtgAreaN are decoded relative to it)
      ptg     xlsb SHEETS NAMES HEX
-     ptg_ast xls  SHEETS NAMES XTIS AST…     ->  hex(encoding)|model|spec|known|wf
-     ptg_ast xlsb SHEETS NAMES AST…
+     ptg_ast xls  SHEETS NAMES XTIS AST [LINKS]            ->  hex(encoding)|model|spec|known|wf
+     ptg_ast xlsb SHEETS NAMES AST [LINKS XTIS BUNDLE]
+        LINKS: the supporting links of the file in record order, comma-separated: self | same | addin |
+        ext:TAB/TAB/… (hex of the UTF-8 sheet names of the other workbook, "." = empty name).  With LINKS the
+        spec is the text through the links (Ptg.render_xls_links / FormulaEnv.spec_extern_links_xlsb) and
+        known is the class Ptg.known_C14 (K_EXTERN_BOOK) or "-".  xlsb: XTIS (link:first:last as u32) and
+        BUNDLE (the sheets of the workbook) are what SHEETS was resolved from — checked: SHEETS must be
+        FormulaEnv.spec_extern_xlsb BUNDLE XTIS.
    SHEETS / NAMES: comma-separated hex of UTF-8 names ("-" = empty list, "." = empty name);
    XTIS: sup:first:last,… (raw u16, "-" = none).  AST: prefix notation, see tools/props/c14.py. *)
 open Conv
@@ -119,6 +125,18 @@ let xti_list (s : string) =
         | [a; b; c] -> ((n_of_string a, n_of_string b), n_of_string c)
         | _ -> failwith "bad xti") (String.split_on_char ',' s)
 
+let links_list (s : string) : suplink list =
+  if s = "-" || s = "" then [] else
+    List.map (fun t ->
+        if t = "self" then SupSelf else if t = "same" then SupSame else if t = "addin" then SupAddin
+        else if String.length t >= 4 && String.sub t 0 4 = "ext:" then begin
+          let r = String.sub t 4 (String.length t - 4) in
+          SupExt (if r = "" then [] else
+                    List.map (fun h -> if h = "." then [] else scalars_of_hex h) (String.split_on_char '/' r))
+        end else failwith "bad link") (String.split_on_char ',' s)
+let known_str (o : BinNums.coq_N option) : string =
+  match o with None -> "-" | Some _ -> "K_EXTERN_BOOK"
+
 let out_str (o : BinNums.coq_N list outcome) : string =
   match o with
   | Ok s -> "ok:" ^ hex_of_scalars s
@@ -148,6 +166,14 @@ let parse_ast (toks : string array) : expr =
       EArea3d (kk, ix, a, bb)
     | "refn" -> let kk = k () in let a = cref () in ERefN (kk, a)
     | "arean" -> let kk = k () in let a = cref () in let bb = cref () in EAreaN (kk, a, bb)
+    | "referr" -> let kk = k () in let j = chars () in ERefErr (kk, j)
+    | "areaerr" -> let kk = k () in let j = chars () in EAreaErr (kk, j)
+    | "referr3" -> let kk = k () in let ix = n () in let j = chars () in ERefErr3d (kk, ix, j)
+    | "areaerr3" -> let kk = k () in let ix = n () in let j = chars () in EAreaErr3d (kk, ix, j)
+    | "mem" -> let kk = k () in
+      let m = (match next () with "area" -> MArea | "err" -> MErr | "nomem" -> MNoMem | "func" -> MFunc
+                                | _ -> failwith "memkind") in
+      let w = n () in let a = e () in EMem (kk, m, w, a)
     | "name" -> let kk = k () in let ix = n () in EName (kk, ix)
     | "int" -> let v = n () in EInt v
     | "num" -> let v = n () in ENum v
@@ -207,26 +233,39 @@ let run_raw (args : string list) : string =
 
 let run_ast (args : string list) : string =
   match args with
-  | fmt :: sh :: nm :: xt :: ast :: _ when xls_base fmt <> None ->
+  | fmt :: sh :: nm :: xt :: ast :: rest when xls_base fmt <> None ->
     let base = (match xls_base fmt with Some b -> b | None -> None) in
     let env = { xe_sheets = name_list sh; xe_names = name_list nm; xe_xtis = xti_list xt; xe_base = base } in
     let ex = parse_ast (Array.of_list (String.split_on_char ' ' ast)) in
     (* the model runs on exactly the bytes that travel (an ill-formed AST may yield values > 255) *)
     let bytes = bytes_of_hex (hex_of_bytes (frame_xls (encode_xls ex))) in
+    let spec, known = (match rest with
+        | links :: _ when links <> "-" ->
+          let l = links_list links in
+          (render_xls_links show_f64 l env ex, known_str (known_C14 l env.xe_xtis ex))
+        | _ -> (render_xls show_f64 env ex, "-")) in
     String.concat "|" [ hex_of_bytes bytes;
                         out_str (xls_parse_formula show_f64 env bytes);
-                        hex_of_scalars (render_xls show_f64 env ex);
-                        "-";   (* no known class is left *)
+                        hex_of_scalars spec;
+                        known;
                         (if wf_xls env ex then "1" else "0") ]
-  | fmt :: sh :: nm :: ast :: _ when xlsb_base fmt <> None ->
+  | fmt :: sh :: nm :: ast :: rest when xlsb_base fmt <> None ->
     let base = (match xlsb_base fmt with Some b -> b | None -> None) in
     let env = { be_sheets = name_list sh; be_names = name_list nm; be_base = base } in
     let ex = parse_ast (Array.of_list (String.split_on_char ' ' ast)) in
     let bytes = bytes_of_hex (hex_of_bytes (encode_xlsb ex)) in
+    let spec, known, okext = (match rest with
+        | [links; xt; bundle] ->
+          let l = links_list links and xs = xti_list xt and bs = name_list bundle in
+          let full = { be_sheets = FormulaEnv.spec_extern_links_xlsb bs l xs; be_names = env.be_names; be_base = base } in
+          (render_xlsb show_f64 full ex, known_str (known_C14 l xs ex),
+           FormulaEnv.spec_extern_xlsb bs xs = env.be_sheets)
+        | _ -> (render_xlsb show_f64 env ex, "-", true)) in
+    if not okext then "ext-mismatch" else
     String.concat "|" [ hex_of_bytes bytes;
                         out_str (xlsb_parse_formula show_f64 env bytes);
-                        hex_of_scalars (render_xlsb show_f64 env ex);
-                        "-";
+                        hex_of_scalars spec;
+                        known;
                         (if wf_xlsb env ex then "1" else "0") ]
   | _ -> "bad-args"
 
